@@ -247,5 +247,55 @@ where
 //@end
 }
 
+// ------------------------------------------------------------------ the remaining loop-free `Contains` impls of Point, and the
+// Point-typed forms that forward to the Coord kernel
+impl<T> Contains<Point<T>> for Point<T>
+where
+    T: CoordNum,
+{
+    open spec fn holds(&self, p: &Point<T>) -> bool { pt(self.0) == pt(p.0) }
+//@fn geo/src/algorithm/contains/point.rs | impl<T> Contains<Point<T>> for Point<T> where T: CoordNum, | contains | id=C02.V.point_contains_point
+//@end
+}
+impl<T> Contains<Rect<T>> for Point<T>
+where
+    T: CoordNum,
+{
+    /// only a degenerate rectangle (a point) can be inside a point
+    open spec fn holds(&self, rect: &Rect<T>) -> bool { pt(rmin(*rect)) == pt(rmax(*rect)) && pt(rmin(*rect)) == pt(self.0) }
+//@fn geo/src/algorithm/contains/point.rs | impl<T> Contains<Rect<T>> for Point<T> where T: CoordNum, | contains | id=C02.V.point_contains_rect
+//@entry
+        proof { T::ax_obeys(); T::ax_order(); }
+//@end
+}
+impl<T> Contains<Triangle<T>> for Point<T>
+where
+    T: CoordNum,
+{
+    /// only a degenerate triangle (three equal vertices) can be inside a point
+    open spec fn holds(&self, triangle: &Triangle<T>) -> bool { pt(triangle.0) == pt(triangle.1) && pt(triangle.0) == pt(triangle.2) && pt(triangle.0) == pt(self.0) }
+//@fn geo/src/algorithm/contains/point.rs | impl<T> Contains<Triangle<T>> for Point<T> where T: CoordNum, | contains | id=C02.V.point_contains_triangle
+//@entry
+        proof { T::ax_obeys(); T::ax_order(); }
+//@end
+}
+impl<T> Contains<Point<T>> for Rect<T>
+where
+    T: CoordNum,
+{
+    /// the Point form answers what the Coord form answers
+    open spec fn holds(&self, p: &Point<T>) -> bool { <Rect<T> as Contains<Coord<T>>>::holds(self, &p.0) }
+//@fn geo/src/algorithm/contains/rect.rs | impl<T> Contains<Point<T>> for Rect<T> where T: CoordNum, | contains | id=C02.V.rect_contains_point
+//@end
+}
+impl<T> Contains<Point<T>> for Line<T>
+where
+    T: GeoNum,
+{
+    open spec fn holds(&self, p: &Point<T>) -> bool { <Line<T> as Contains<Coord<T>>>::holds(self, &p.0) }
+//@fn geo/src/algorithm/contains/line.rs | impl<T> Contains<Point<T>> for Line<T> where T: GeoNum, | contains | id=C02.V.line_contains_point
+//@end
+}
+
 } // verus!
 fn main() {}
